@@ -32,13 +32,13 @@ CHECKS = {
    note=TRUST + '; tokio Mutex/mpsc/sleep/select contracts (vf/lib_tokio.py); bounds: 2 notifications + 1 poll (quick), loop 2 iterations.'),
  'C15': dict(category='model_checking',
    text='The real PayPaymentProvider::wait_payment coroutine (async-trait box, FuturesUnordered, filter_map closure) runs against the node model with 0..2 (quick) / 0..3 (thorough) parts in '
-        'arbitrary initial states; parts resolve at every possible point relative to the linearisation points of the list and wait RPCs, with every tolerated waitsendpay code. '
+        'arbitrary initial states; parts resolve at every possible point relative to the linearisation points of the list and wait RPCs, with every part-failure code the function distinguishes (202, 203, 204, 208, 209) and one non-tolerated RPC error (200 / transport; thorough also -1, 999) anywhere. '
         'At the instant the future completes: Some(p) only if a part is complete with p = pre(H); None only if no part is pending or complete; Err only after an RPC error. '
         'All interleavings within the bounds are enumerated; counterexamples are replayed against the real provider over a fake lightning-rpc socket.',
    design='4/C15', technique='symbolic execution of the async state machine from MIR + exhaustive environment interleavings (explicit-state, SMT for data)',
    note=TRUST + '; node model of listsendpays/waitsendpay (vf/env_node.py); bound: number of parts.'),
  'C16': dict(category='model_checking',
-   text='The real pay wrapper (both xpay settings) runs against the node model: every pay outcome (complete, pending, failed, failed+warning, RPC error) x parts created by the command '
+   text='The real pay wrapper (both xpay settings) runs against the node model: every pay outcome (complete, pending, failed, failed with a non-empty or an empty partial-completion warning, RPC error 210, RPC error without a node error code) x parts created by the command '
         '(<=1 quick / <=2 thorough) x one pre-existing part in any state x every later resolution order. Ok(p) only with the preimage of a complete part, Err only when no part is pending or complete; '
         'the PayRequest forwarded carries exactly bolt11, amount, maxfee, maxdelay, retry_for (symbolic over their full ranges).',
    design='4/C16', technique='symbolic execution of the async state machine from MIR + exhaustive environment interleavings (explicit-state, SMT for data)',
@@ -57,10 +57,10 @@ CHECKS = {
    design='4/C01', technique='symbolic execution of the real async stack from MIR under an explicit-state scheduler with partial-order reduction; SMT decides data; native replay over a fake node',
    note=TRUST + '; SHA-256 not executed: preimages are terms pre(h); invoice parsing is an oracle keyed by the invoice bytes.'),
  'C04': dict(category='model_checking',
-   text='Full stack from MIR with symbolic expiries, heights (advancing while the set is collected), safety delta and policy delta: at every pay call maxdelay <= max(0, min expiry of the HTLCs '
-        'registered when the lifecycle read the table - height at that time - cltv_delta) and <= policy delta; an HTLC with relative expiry below the policy delta on a still-incomplete set never leads to pay.',
+   text='Full stack from MIR with symbolic expiries, safety delta and policy delta; heights reach the plugin while the set is collected through the crate\'s own update_height (run as a task), each one a new tip or a stale height: '
+        'at every pay call maxdelay is present and <= max(0, min expiry of the HTLCs registered when the lifecycle read the table - highest height processed by then - cltv_delta) and <= policy delta; an HTLC with relative expiry below the policy delta on a still-incomplete set never leads to pay.',
    design='4/C04', technique='symbolic execution of the real async stack from MIR under an explicit-state scheduler with partial-order reduction; SMT decides data; native replay over a fake node',
-   note=TRUST + '; block_added handling atomic (update_height is C20); bounds: 2 HTLCs / 1 block arrival (quick).'),
+   note=TRUST + '; bounds: 1x1 and 2x1 HTLCs x heights told (quick), 1x2, 2x2, 3x1 (thorough).'),
  'C07': dict(category='model_checking',
    text='Full stack from MIR: every resolution event hands the same response to every registered listener and leaves none behind; with symbolic fields, any HTLC that is rejecting (fee on declared total, '
         'relative expiry) on a still-incomplete set never leads to pay; two parts with conflicting trampoline info (different invoice string for one hash; same amountless invoice with different amount TLVs) '
@@ -131,7 +131,7 @@ CHECKS = {
  'C19': dict(category='proof',
    text='The lowered coroutine of async main is executed with the six integer options as symbolic i64 values and the flags as symbolic booleans (get_info, block watcher start and e-mail setup through their real code against the node model): '
         'the init acknowledgement (cp.start) is reached iff every integer is in the range of its target type and policy delta > safety delta; when reached, the HtlcManagerParams and the provider hold, term for term, '
-        'the configured values (retry_for = min(payment timeout, 65535), allow_self_route_hints = not flag). No bound on the values. Counterexamples are replayed by starting the real plugin binary against a fake lightningd.',
+        'the configured values (retry_for = min(payment timeout, 65535), allow_self_route_hints = not flag). No bound on the values. Second stage: what the provider holds is what it puts into every pay request (retry_for, maxfee, maxdelay, amount symbolic; xpay on and off). Counterexamples are replayed by starting the real plugin binary against a fake lightningd.',
    design='4/C19', technique='symbolic execution of the async main state machine from MIR; SMT over all i64 option values; native replay with the real binary',
    note=TRUST + '; ConfiguredPlugin::option is a contract (returns the configured value): the option parsing of cln_plugin is outside.'),
 }
